@@ -211,6 +211,63 @@ pub fn build(spec: &PatSpec, lang: SupportLang) -> Option<Pattern<SupportLang>> 
   }
 }
 
+
+/// The same precondition judged without ast-grep's pattern conversion: the pattern text (sigils
+/// rewritten to the language's expando character, which is a property of the language, not of
+/// the matcher) is parsed by tree-sitter alone, and some node of that parse must have the shape
+/// of the code node `n`, with a leaf spelling the variable where each hole / run was. Used when
+/// the converted pattern tree differs from the code (e.g. a conversion that drops nodes): the
+/// property's precondition speaks about how the pattern *parses*.
+pub fn raw_shape_ok(lang: SupportLang, src: &str, spec: &PatSpec, n: &TsNode) -> bool {
+  use ast_grep_core::Language;
+  let processed = lang.pre_process_pattern(&spec.text).to_string();
+  let ex = lang.expando_char();
+  let sg = tsutil::parse(lang, &processed);
+  let root = sg.root().get_ts_node();
+  if tsutil::subtree_has_error(&root) {
+    return false;
+  }
+  fn eq(src: &str, psrc: &str, spec: &PatSpec, ex: char, n: &TsNode, q: &TsNode) -> bool {
+    let (s, e) = (n.start_byte() as usize, n.end_byte() as usize);
+    if let Some(h) = spec.holes.iter().find(|h| h.start == s && h.end == e) {
+      return tsutil::text(psrc, q) == format!("{ex}{}", h.name);
+    }
+    if n.kind_id() != q.kind_id() {
+      return false;
+    }
+    let nk = tsutil::children(n);
+    let qk = tsutil::children(q);
+    if nk.is_empty() || qk.is_empty() {
+      return nk.is_empty() && qk.is_empty() && tsutil::text(src, n) == tsutil::text(psrc, q);
+    }
+    let (mut i, mut j) = (0, 0);
+    while i < nk.len() {
+      let k = &nk[i];
+      if let Some(r) = &spec.run {
+        if k.start_byte() as usize == r.start && k.is_named() && k.end_byte() > k.start_byte() && (k.end_byte() as usize) <= r.end {
+          let Some(qc) = qk.get(j) else { return false };
+          if tsutil::text(psrc, qc) != format!("{ex}{ex}{ex}{}", r.name) {
+            return false;
+          }
+          j += 1;
+          while i < nk.len() && (nk[i].end_byte() as usize) <= r.end {
+            i += 1;
+          }
+          continue;
+        }
+      }
+      let Some(qc) = qk.get(j) else { return false };
+      if !eq(src, psrc, spec, ex, k, qc) {
+        return false;
+      }
+      i += 1;
+      j += 1;
+    }
+    j == qk.len()
+  }
+  tsutil::preorder(root).iter().any(|q| eq(src, &processed, spec, ex, n, q))
+}
+
 /// The shape precondition of C02: the pattern tree equals the subtree of the node it was cut
 /// from, except that a meta-variable node sits where each abstracted node / run was.
 pub fn shape_matches(src: &str, spec: &PatSpec, pat: &PatternNode, n: &TsNode) -> Result<(), String> {
